@@ -243,12 +243,14 @@ def run(ctx):
                 "outside the range leave the canonical state unchanged; byte accesses on the 16-bit-cell TOY memory raise; after every transition the public cell table lists exactly the written cells with their values. Non-trivial = read of a written "
                 "cell or straddling access.")
     ctx.assumptions += ["for a store straddling the range boundary 'raises' is demanded and every valid cell it touches holds either its old or the new value afterwards"]
-    for arch, lite, depth in (("riscv", False, 2), ("riscv", True, 3 if ctx.quick else 4), ("toy", False, 3), ("toy", True, 4 if ctx.quick else 5)):
+    for arch, lite, depth in (("riscv", False, 2 if ctx.quick else 3), ("riscv", True, 3 if ctx.quick else 4), ("toy", False, 3 if ctx.quick else 4), ("toy", True, 4 if ctx.quick else 6)):
         t0 = time.time()
         setup = Setup(arch, ctx.seed, lite)
         mem0 = setup.fresh()
         key0 = digest((canon(mem0), (), ()))
-        res = bfs(expand, (arch, ctx.seed, lite), [key0], [()], depth, 2000000, label=f"[C18] {arch}", verbose=False)
+        res = bfs(expand, (arch, ctx.seed, lite), [key0], [()], depth, 3000000, label=f"[C18] {arch}", verbose=not ctx.quick)
+        if res.stopped in ("state-cap", "time-cap"):
+            ctx.exhaustive = False
         res.part.sample(dict(kind="mem-history", arch=arch, ops=[opname(setup.ops[i]) for i in (1, len(setup.ops) // 2, len(setup.ops) - 1)]))
         ctx.space(f"{arch}-memory-{'1val' if lite else '2val'}-depth{depth}", res.part, t0, operations=len(setup.ops), addresses=len(setup.addrs), depth=res.depth,
                   closed=res.closed, stopped_early=res.stopped)
